@@ -92,6 +92,9 @@ type epTriple struct {
 
 func registered(m *saml.EntityDescriptor) []epTriple {
 	var out []epTriple
+	if m == nil {
+		return nil
+	}
 	for _, d := range m.SPSSODescriptors {
 		for _, e := range d.AssertionConsumerServices {
 			out = append(out, epTriple{e.Binding, e.Location, e.Index})
@@ -231,6 +234,15 @@ func runC05(c *core.Ctx) {
 			deviate(&q, c.Rng.Intn(4), c.Rng.Intn(12))
 		}
 		c05Run(c, m, q)
+		// the byte-identical request again, after the registry changed (other endpoints, or the SP deregistered)
+		switch c.Rng.Intn(8) {
+		case 0:
+			c.Count("requests_redelivered_after_registry_change")
+			c05Run(c, c05GenMetadata(c, so.SPMeta), q)
+		case 1:
+			c.Count("requests_redelivered_after_deregistration")
+			c05Run(c, nil, q)
+		}
 	}
 	// IdP-initiated
 	ni := c.Pick(6000, 80000)
@@ -246,8 +258,16 @@ func c05Run(c *core.Ctx, m *saml.EntityDescriptor, q c05Req) {
 	saml.MaxIssueDelay = q.delay
 	now := fx.Epoch
 	fx.SetNow(now)
-	w := so.NewIDPWorld()
-	w.Registry[so.SPMeta] = m
+	// one IdP per process: what it saw in earlier cases (requests, registry contents) must not matter now
+	if c05LiveWorld == nil {
+		c05LiveWorld = so.NewIDPWorld()
+	}
+	w := c05LiveWorld
+	if m != nil {
+		w.Registry[so.SPMeta] = m
+	} else {
+		delete(w.Registry, so.SPMeta) // deregistered
+	}
 	m2 := &saml.EntityDescriptor{EntityID: c05SP2, SPSSODescriptors: []saml.SPSSODescriptor{{AssertionConsumerServices: []saml.IndexedEndpoint{{Binding: saml.HTTPPostBinding, Location: "https://sp2.example.com/saml/acs", Index: 0}}}}}
 	w.Registry[c05SP2] = m2
 	var issue time.Time
@@ -353,7 +373,10 @@ func c05Run(c *core.Ctx, m *saml.EntityDescriptor, q c05Req) {
 	}
 	c.Nontrivial(desc)
 	// what the statement requires for processing
-	regMD := map[string]*saml.EntityDescriptor{so.SPMeta: m, c05SP2: m2}
+	regMD := map[string]*saml.EntityDescriptor{c05SP2: m2}
+	if m != nil {
+		regMD[so.SPMeta] = m
+	}
 	issuerKnown := !q.issuer.absent && regMD[q.issuer.val] != nil
 	stale := q.issueOff == "edge-stale" || q.issueOff == "old" || (q.issueOff == "absent" && true)
 	if q.issueOff == "absent" {
@@ -448,6 +471,9 @@ func c05Run(c *core.Ctx, m *saml.EntityDescriptor, q c05Req) {
 
 func mdShape(m *saml.EntityDescriptor) string {
 	var ds []string
+	if m == nil {
+		return "deregistered"
+	}
 	for _, d := range m.SPSSODescriptors {
 		var es []string
 		for _, e := range d.AssertionConsumerServices {
@@ -505,7 +531,10 @@ func c05CheckForm(c *core.Ctx, rec *httptest.ResponseRecorder, regs []epTriple, 
 func c05IDPInitiated(c *core.Ctx, m *saml.EntityDescriptor) {
 	fx.SetNow(fx.Epoch)
 	fx.ResetTolerances()
-	w := so.NewIDPWorld()
+	if c05LiveWorld == nil {
+		c05LiveWorld = so.NewIDPWorld()
+	}
+	w := c05LiveWorld
 	w.Registry[so.SPMeta] = m
 	target := so.SPMeta
 	if c.Rng.Intn(6) == 0 {
@@ -559,3 +588,5 @@ func c05IDPInitiated(c *core.Ctx, m *saml.EntityDescriptor) {
 	}
 	_ = etree.NewDocument
 }
+
+var c05LiveWorld *so.IDPWorld
